@@ -2361,6 +2361,10 @@ def transport_conditional_counterfactual_query(
         domain_data=domain_data,
     )
 
+    # the ancestral components hold minimized variables, so the query is looked up in minimized form
+    outcomes = minimize_event(event=outcomes, graph=target_domain_graph)  # type:ignore[assignment]
+    conditions = minimize_event(event=conditions, graph=target_domain_graph)  # type:ignore[assignment]
+
     # Initialize data structures
     (
         conditioned_variables,
